@@ -2426,22 +2426,24 @@ def coalesce_copies(trees: Dict[str, ast.Module]) -> int:
             if q not in sigs:
                 continue
             pinned = set(sigs[q]) | set(sigs.get("locals:" + q, []))
-            for _ in range(30):
-                if not _unhoist_once(fn, pinned, writers):
-                    break
-                n += 1
             for block in list(_blocks_of(fn)):
                 for bi in range(len(block) - 1, -1, -1):
                     st = block[bi]
                     if isinstance(st, ast.Assign) and len(st.targets) == 1 and isinstance(st.targets[0], ast.Tuple) and isinstance(st.value, ast.Tuple) \
-                            and len(st.targets[0].elts) == len(st.value.elts) and all(isinstance(e, ast.Name) for e in st.targets[0].elts + st.value.elts):
-                        ts, vs = [e.id for e in st.targets[0].elts], [e.id for e in st.value.elts]
-                        if any(ts[i] in vs[i + 1:] for i in range(len(ts))) or not any(t not in pinned for t in ts):
+                            and len(st.targets[0].elts) == len(st.value.elts) and all(isinstance(e, ast.Name) for e in st.targets[0].elts) \
+                            and all(isinstance(e, ast.Name) or _chain(e) is not None for e in st.value.elts):
+                        ts = [e.id for e in st.targets[0].elts]
+                        reads = [{n.id for n in ast.walk(e) if isinstance(n, ast.Name)} for e in st.value.elts]
+                        if any(ts[i] in r for i in range(len(ts)) for r in reads[i + 1:]) or not any(t not in pinned for t in ts) or len(set(ts)) != len(ts):
                             continue
-                        # `a, b = (a, v)`: plain copies, no target is read by a later right-hand side
-                        block[bi:bi + 1] = [ast.copy_location(ast.Assign(targets=[ast.Name(id=t, ctx=ast.Store())], value=ast.Name(id=v, ctx=ast.Load())), st)
-                                            for t, v in zip(ts, vs) if t != v]
+                        # `a, b = (a, obj.v)`: plain copies / look-ups, no target is read by a later right-hand side
+                        block[bi:bi + 1] = [ast.copy_location(ast.Assign(targets=[ast.Name(id=t, ctx=ast.Store())], value=v), st)
+                                            for t, v in zip(ts, st.value.elts) if not (isinstance(v, ast.Name) and v.id == t)]
                         ast.fix_missing_locations(fn)
+            for _ in range(30):
+                if not _unhoist_once(fn, pinned, writers):
+                    break
+                n += 1
             for _ in range(40):
                 if not (_copy_once(fn, pinned) or _takeover_once(fn, pinned) or _inline_single_use_once(fn, pinned)):
                     break
@@ -2862,8 +2864,6 @@ def _unhoist_once(fn: ast.AST, pinned: Set[str], writers: Dict[str, Set[str]]) -
                     for y in ast.walk(part):
                         if isinstance(y, ast.Attribute) and isinstance(y.ctx, (ast.Store, ast.Del)) and y.attr in attrs:
                             bad = True
-                        if isinstance(y, ast.Subscript) and isinstance(y.ctx, (ast.Store, ast.Del)) and isinstance(y.value, ast.Attribute) and y.value.attr in attrs:
-                            bad = True
                         if isinstance(y, ast.Call):
                             nm = y.func.id if isinstance(y.func, ast.Name) else y.func.attr if isinstance(y.func, ast.Attribute) else None
                             if nm is not None and any(nm in writers.get(a, ()) for a in attrs) \
@@ -2955,7 +2955,8 @@ class _NumpySpellings(ast.NodeTransformer):
             self.n += 1
             return ast.copy_location(_np_call("array", ast.List(elts=list(node.args[0].elts), ctx=ast.Load())), node)
         if self.module == "hvsr_spatial" and _is_np(node, "concatenate") and len(node.args) == 1 and isinstance(node.args[0], (ast.Tuple, ast.List)) \
-                and len(node.args[0].elts) == 2 and isinstance(node.args[0].elts[1], ast.List) and len(node.args[0].elts[1].elts) == 1 and not node.keywords:
+                and len(node.args[0].elts) == 2 and isinstance(node.args[0].elts[1], ast.List) and len(node.args[0].elts[1].elts) == 1 \
+                and all(k.arg == "axis" and isinstance(k.value, ast.Constant) and k.value.value == 0 for k in node.keywords):
             self.n += 1
             return ast.copy_location(_np_call("vstack", ast.Tuple(elts=[node.args[0].elts[0], node.args[0].elts[1].elts[0]], ctx=ast.Load())), node)
         return node
@@ -3045,4 +3046,36 @@ def drop_observability(trees: Dict[str, ast.Module]) -> int:
                         lp.target, lp.iter = lp.target.elts[1], lp.iter.args[0]
                         n += 1
         ast.fix_missing_locations(tree)
+    return n
+
+
+# ------------------------------------------------------------------------------------------------- early returns
+def merge_early_returns(trees: Dict[str, ast.Module]) -> int:
+    """`if c: return v` ... `return v` (the same plain name, at the top level of a function) is `if not c: ...` followed by the one
+    `return v`: a guard clause is the nested form written flat."""
+    n = 0
+    for tree in trees.values():
+        for fn in [x for x in ast.walk(tree) if isinstance(x, (ast.FunctionDef, ast.AsyncFunctionDef))]:
+            body = fn.body
+            if len(body) < 3 or not isinstance(body[-1], ast.Return) or not isinstance(body[-1].value, ast.Name):
+                continue
+            v = body[-1].value.id
+            for i in range(len(body) - 2, -1, -1):
+                st = body[i]
+                if isinstance(st, ast.If) and not st.orelse and len(st.body) == 1 and isinstance(st.body[0], ast.Return) and isinstance(st.body[0].value, ast.Name) \
+                        and st.body[0].value.id == v and i < len(body) - 2:
+                    rest = body[i + 1:-1]
+                    if any(isinstance(x, ast.Name) and x.id == v and isinstance(x.ctx, (ast.Store, ast.Del)) for r in rest for x in ast.walk(r)):
+                        continue
+                    neg = st.test.operand if isinstance(st.test, ast.UnaryOp) and isinstance(st.test.op, ast.Not) else None
+                    if neg is None and isinstance(st.test, ast.Compare) and len(st.test.ops) == 1 and isinstance(st.test.ops[0], (ast.Is, ast.IsNot, ast.Eq, ast.NotEq)):
+                        flip = {ast.Is: ast.IsNot, ast.IsNot: ast.Is, ast.Eq: ast.NotEq, ast.NotEq: ast.Eq}[type(st.test.ops[0])]
+                        neg = ast.Compare(left=st.test.left, ops=[flip()], comparators=st.test.comparators)
+                    if neg is None:
+                        neg = ast.UnaryOp(op=ast.Not(), operand=st.test)
+                    new = ast.copy_location(ast.If(test=neg, body=rest, orelse=[]), st)
+                    body[i:-1] = [new]
+                    ast.fix_missing_locations(fn)
+                    n += 1
+                    break
     return n
